@@ -305,7 +305,7 @@ def run(a, res):
                     res.violation(key, f"upstream {up.framing} message is complete with {len(up.body)} body bytes; client body has {len(body)} bytes "
                                        f"(client framing {c['framing']}, sent {len(client_prefix)} body bytes, abort={abort_at is not None}); first diff at {first_diff(up.body, body)}", wit(c))
                     continue
-                if abort_at is not None and len(client_prefix) < len(body):
+                if abort_at is not None and len(client_prefix) < len(body) and not getattr(conn, "send_error", False):
                     res.violation("body-invented", f"upstream complete with the full body although the client sent only {len(client_prefix)}/{len(body)} bytes", wit(c))
                     continue
                 if c.get("bigslow"):
@@ -313,9 +313,12 @@ def run(a, res):
                 res.feature(*feat, "complete", up.framing)
             else:
                 res.count("upstream_incomplete")
-                if not client_prefix.startswith(up.body):
-                    res.violation("incomplete-not-prefix", f"upstream incomplete {up.framing} message carries {len(up.body)} bytes that are not a prefix of the {len(client_prefix)} body bytes "
-                                                           f"the client sent (first diff at {first_diff(up.body, client_prefix)})", wit(c))
+                # a send that failed part-way (squid closed after the origin's early reply) may have delivered any prefix of the
+                # piece being written: what the client really sent is then only known to lie between client_prefix and body
+                sent_ref = body if getattr(conn, "send_error", False) else client_prefix
+                if not sent_ref.startswith(up.body):
+                    res.violation("incomplete-not-prefix", f"upstream incomplete {up.framing} message carries {len(up.body)} bytes that are not a prefix of the {len(sent_ref)} body bytes "
+                                                           f"the client sent (first diff at {first_diff(up.body, sent_ref)})", wit(c))
                     continue
                 if abort_at is None and c["early_reply"]:
                     res.count("squid_stopped_after_early_reply")
